@@ -69,10 +69,19 @@ class Gen:
         self.scopes[-1].append((n, ty))
 
     def vars_of(self, ty):
-        return [n for sc in self.scopes for (n, t) in sc if t == ty]
+        return [n for (n, t) in self.all_vars() if t == ty]
 
     def all_vars(self):
-        return [(n, t) for sc in self.scopes for (n, t) in sc]
+        """the variables in scope: for every name its innermost (latest) binding; shadowed bindings are hidden"""
+        seen = set()
+        out = []
+        for sc in reversed(self.scopes):
+            for (n, t) in reversed(sc):
+                if n not in seen:
+                    seen.add(n)
+                    out.append((n, t))
+        out.reverse()
+        return out
 
     def scalar_tys(self):
         ts = []
@@ -566,8 +575,23 @@ class Gen:
         f = r.choice(forms)
         if f == "let":
             ty = self.random_ty(1)
-            e = self.expr(ty, d, True)
-            n = self.fresh()
+            n = None
+            if self.has("shadow") and len(self.scopes) > 1 and r.random() < 0.3:
+                # shadowing: re-use the name of a variable of an ENCLOSING scope (any type); the initialiser is
+                # generated before the new binding exists, so it still refers to the outer variable
+                here = {x for (x, _) in self.scopes[-1]}
+                outer = [(x, t) for sc in self.scopes[:-1] for (x, t) in sc if x not in self.protected and x not in here]
+                if outer:
+                    n, ot = r.choice(outer)
+                    if r.random() < 0.5:
+                        ty = ot
+                    if r.random() < 0.6 and self.emit_ok(ty) and ty == ot and ty in INT_TYS:
+                        e = binop(r.choice(["add", "mul", "sub"]), ty, var(n), self.expr(ty, max(d - 1, 0)))
+                    else:
+                        e = self.expr(ty, d, True)
+            if n is None:
+                e = self.expr(ty, d, True)
+                n = self.fresh()
             self.declare(n, ty)
             return let(n, ty, e)
         if f == "set":
